@@ -160,7 +160,7 @@ pub fn run(cfg: &RunCfg) -> PropRun {
     run.rule = "versions obtained by Version::parse of generated spellings (canonical, leading zeros, v/V prefix, blanks, hyphenless prerelease, padding to exactly MAX_LENGTH / MAX_LENGTH-1 bytes, components at MAX_SAFE_INTEGER, hyphen-only / numeric-looking / mixed identifiers) or built as struct literals with canonical identifiers. Oracle: to_string() re-parses to the same five fields, is a fixed point, serde JSON is exactly the quoted printed string and deserialises to the same five fields. Non-trivial = version with prerelease or build part, or loosely spelled; distinct by printed text.".into();
     run.assumptions = vec!["struct literals whose text exceeds MAX_LENGTH are outside the domain (discarded)".into()];
     known_probe(&mut run);
-    let out = campaign(cfg, ID, "roundtrip", cfg.pick(400_000, 8_000_000), case_strategy, check_case);
+    let out = campaign(cfg, ID, "roundtrip", cfg.pick(1_000_000, 10_000_000), case_strategy, check_case);
     run.absorb(out);
     // every accepted string of the C05 limit family as well
     let lim = crate::props::c05::limit_strings();
